@@ -9,6 +9,23 @@
 #include <functional>
 #include <string>
 #include <vector>
+#include <csignal>
+#include <unistd.h>
+// A crash of the real code on an enumerated (valid) input is a failed obligation, not an undecided run: the harness names the
+// case it is about to run with current_case(); the handler reports it in the OBL protocol and exits 1.
+#ifndef CRASH_TAG
+#define CRASH_TAG "-"
+#endif
+static std::string g_current_case;
+static inline void current_case(std::string const& s) { g_current_case = s; }
+static void on_crash_signal(int sig)
+{
+  char b[2048]; int n = snprintf(b, sizeof b, "\nOBL native.crash FAILURE 1 %s - | the real code runs to completion on every enumerated input (no signal) | signal %d on %s\n", CRASH_TAG, sig, g_current_case.c_str());
+  if (n > 0) { ssize_t w = write(1, b, (size_t)(n < (int)sizeof b ? n : (int)sizeof b - 1)); (void)w; }
+  _exit(1);
+}
+static int install_crash_handler() { signal(SIGSEGV, on_crash_signal); signal(SIGBUS, on_crash_signal); signal(SIGABRT, on_crash_signal); signal(SIGFPE, on_crash_signal); return 0; }
+static int g_crash_handler_installed = install_crash_handler();
 struct Obl { std::string name, tag, known, clause; long evals = 0; bool failed = false; std::string first; };
 static inline std::string show(std::string const& s)
 {
